@@ -127,6 +127,7 @@ func (self *Transformer) Function(node ast.AnalyzedFunctionDefinition) ast.Analy
 		ReturnType: node.ReturnType,
 		Body:       self.Block(node.Body),
 		Modifier:   node.Modifier,
+		Annotation: node.Annotation,
 		Range:      node.Range,
 	}
 }
